@@ -2,12 +2,15 @@ package props
 
 import (
 	"fmt"
+	"os"
 	"strings"
+	"syscall"
 
 	"github.com/uber-go/gopatch/patch"
 
 	"verifmc/canon"
 	"verifmc/core"
+	"verifmc/drive"
 	"verifmc/model"
 )
 
@@ -160,7 +163,7 @@ func c09Gen(tier string, emit func(any)) {
 			emit(&C09Case{Big: n, Packaging: p})
 		}
 	}
-	packagings := []string{"one", "multi-p", "P-list", "stdin", "mixed", "api", "P-list-odd"}
+	packagings := []string{"one", "multi-p", "P-list", "stdin", "mixed", "api", "P-list-odd", "one-fifo", "P-fifo"}
 	for _, s := range seqs(c09Order, c09MaxLen(tier)) {
 		if len(s) < 2 {
 			continue
@@ -197,7 +200,7 @@ func c09Gen(tier string, emit func(any)) {
 				continue
 			}
 			for _, p := range packagings {
-				if len(s) >= 3 && (p == "stdin" || p == "mixed" || p == "P-list-odd") && f[0] != "a1" && f[0] != "nested" {
+				if (len(s) >= 3 && (p == "stdin" || p == "mixed" || p == "P-list-odd") || p == "one-fifo" || p == "P-fifo") && f[0] != "a1" && f[0] != "nested" {
 					continue // length 3: all packagings on two files, the main packagings on all files
 				}
 				emit(&C09Case{Seq: s, FileID: f[0], File: f[1], Packaging: p})
@@ -345,6 +348,19 @@ func c09Run(env *core.Env, ci any) core.Outcome {
 				panic(err)
 			}
 			args = []string{"-P", sb.path("list.txt")}
+		case "one-fifo", "P-fifo": // the patch file / the list of patch files is a named pipe
+			name, data := "all.patch", all
+			args = []string{"-p", sb.path("all.patch")}
+			if c.Packaging == "P-fifo" {
+				name, data = "list.txt", list(c.Seq)
+				args = []string{"-P", sb.path("list.txt")}
+			}
+			os.Remove(sb.path(name))
+			if err := syscall.Mkfifo(sb.path(name), 0o644); err != nil {
+				panic("harness: " + err.Error())
+			}
+			defer drive.FeedFifo(sb.path(name), data)()
+			sb.noShadow = true
 		case "stdin":
 			stdin = all
 		case "mixed":
